@@ -5,6 +5,7 @@ import (
 	"net"
 	"net/netip"
 	"net/url"
+	"os"
 	"strconv"
 	"strings"
 
@@ -14,14 +15,73 @@ import (
 	"github.com/saucelabs/forwarder/verifharness/rig"
 )
 
+// hostsFileLoopbackNames reads the machine's hosts file independently of /repo/hostsfile: every name on
+// a line whose address is a loopback address (127.0.0.0/8, ::1), in file order, without duplicates.
+func hostsFileLoopbackNames(path string) ([]string, error) {
+	raw, err := os.ReadFile(path)
+	if err != nil {
+		return nil, err
+	}
+	var out []string
+	seen := map[string]bool{}
+	for _, line := range strings.Split(string(raw), "\n") {
+		if i := strings.IndexByte(line, '#'); i >= 0 {
+			line = line[:i]
+		}
+		f := strings.Fields(line)
+		if len(f) < 2 {
+			continue
+		}
+		a, err := netip.ParseAddr(f[0])
+		if err != nil || !a.Unmap().IsLoopback() {
+			continue
+		}
+		for _, n := range f[1:] {
+			if !seen[n] {
+				seen[n] = true
+				out = append(out, n)
+			}
+		}
+	}
+	return out, nil
+}
+
+var hostsAliases struct {
+	own, pkg []string
+}
+
+// readLocalNames is hp.localhost as NewHTTPProxy composes it: the three built-in names followed by the
+// hosts-file aliases of loopback addresses. The aliases are read by the harness's own parser; what
+// hostsfile.LocalhostAliases (the function the proxy calls) returns is kept for comparison.
 func readLocalNames() []string {
-	lh, err := hostsfile.LocalhostAliases()
+	own, err := hostsFileLoopbackNames("/etc/hosts")
+	if err != nil {
+		core.Fatalf("cannot read /etc/hosts: %v", err)
+	}
+	pkg, err := hostsfile.LocalhostAliases()
 	if err != nil {
 		core.Fatalf("cannot read localhost aliases: %v", err)
 	}
-	out := []string{"localhost", "0.0.0.0", "::"}
-	for _, a := range lh {
-		out = append(out, strings.ToLower(a))
+	hostsAliases.own, hostsAliases.pkg = own, pkg
+	return append([]string{"localhost", "0.0.0.0", "::"}, own...)
+}
+
+// aliasTargets are the hosts-file aliases usable as request targets (plain host names other than the
+// built-in "localhost").
+func aliasTargets() []string {
+	localNames()
+	var out []string
+	for _, a := range hostsAliases.own {
+		ok := a != "" && strings.ToLower(a) != "localhost"
+		for i := 0; i < len(a); i++ {
+			c := a[i]
+			if !(c >= 'a' && c <= 'z' || c >= 'A' && c <= 'Z' || c >= '0' && c <= '9' || c == '-' || c == '.') {
+				ok = false
+			}
+		}
+		if ok {
+			out = append(out, a)
+		}
 	}
 	return out
 }
@@ -80,20 +140,34 @@ func specPac(s string) specHop {
 	if err != nil {
 		return specHop{Kind: "error", Why: "unparsable host:port"}
 	}
+	// "an entry whose host:port cannot be parsed fails the request": a host that is empty or holds a
+	// blank, a port that is not a decimal number in 0..65535
+	valid := host != "" && !strings.ContainsAny(host, " \t") && port != "" && len(strings.TrimLeft(port, "0123456789")) == 0
+	if valid {
+		n, err := strconv.ParseUint(port, 10, 64)
+		valid = err == nil && n <= 65535
+	}
 	mode, known := pacModes[kw]
 	if !known {
+		if !valid {
+			// "unrecognised keyword = DIRECT" and "unparsable host:port fails" both apply: not judged
+			return specHop{Kind: "skip", Why: "unknown keyword with an invalid host:port"}
+		}
 		return specHop{Kind: "direct"}
+	}
+	if !valid {
+		return specHop{Kind: "error", Why: "invalid host or port"}
 	}
 	if mode == "socks" || mode == "socks4" {
 		return specHop{Kind: "error", Why: "unsupported proxy type", Socks4: true}
 	}
-	if n, err := strconv.Atoi(port); err != nil || n < 1 || n > 65535 || strings.TrimSpace(host) != host || host == "" {
-		return specHop{Kind: "skip", Why: "host:port that splits but is not an address"}
+	if port == "0" || strings.TrimLeft(port, "0") == "" {
+		return specHop{Kind: "skip", Why: "port 0"}
 	}
 	return specHop{Kind: "proxy", Proxy: mode, Addr: net.JoinHostPort(host, port)}
 }
 
-func specRoute(fc *reqmodel.FullCfg, hostname string) specHop {
+func specRoute(fc *reqmodel.FullCfg, hostname string, t *target) specHop {
 	rc := &fc.Route
 	if fc.Base.DenyLocal && isLocalhostSpec(fc.Base.LocalNames, hostname) {
 		return specHop{Kind: "skip", Why: "refused by localhost denial"}
@@ -124,12 +198,16 @@ func specRoute(fc *reqmodel.FullCfg, hostname string) specHop {
 		}
 		return proxyOf(rc.CustomDefault)
 	case "pac":
-		r := rc.PacDefault
-		for _, e := range rc.PacTable {
-			if e.Host == hostname {
-				r = e.R
-				break
+		// "the first entry of the PAC result for THAT URL": the script is read as its source says, on the
+		// URL of this request. For CONNECT the property does not say which URL string the script is given
+		// (//host:port, https://host:port/, host:port …): judged only when the readings agree.
+		var r *reqmodel.PacResult
+		for _, u := range specURLs(t) {
+			x := specPacEval(rc, u, hostname)
+			if r != nil && *r != x {
+				return specHop{Kind: "skip", Why: "CONNECT: the script's answer depends on the form of the URL string"}
 			}
+			r = &x
 		}
 		if r.Fail != "" {
 			return specHop{Kind: "error", Why: "script error"}
@@ -137,6 +215,71 @@ func specRoute(fc *reqmodel.FullCfg, hostname string) specHop {
 		return specPac(r.Return)
 	}
 	return specHop{Kind: "skip"}
+}
+
+// specURLs are the URL strings the script may be asked about for the target.
+func specURLs(t *target) []string {
+	switch t.Kind {
+	case "connect":
+		return []string{"//" + t.Authority, "https://" + t.Authority + "/", "https://" + t.Authority, t.Authority, "http://" + t.Authority + "/"}
+	case "mitm":
+		return []string{"https://" + t.Authority + t.requestURI()}
+	}
+	return []string{"http://" + t.Authority + t.requestURI()}
+}
+
+// globSpec: shell expression, `*` any run of characters, `?` any one character, everything else literal.
+func globSpec(pat, s string) bool {
+	if pat == "" {
+		return s == ""
+	}
+	switch pat[0] {
+	case '*':
+		for i := 0; i <= len(s); i++ {
+			if globSpec(pat[1:], s[i:]) {
+				return true
+			}
+		}
+		return false
+	case '?':
+		return s != "" && globSpec(pat[1:], s[1:])
+	}
+	return s != "" && s[0] == pat[0] && globSpec(pat[1:], s[1:])
+}
+
+func condSpec(c *reqmodel.PacCond, url, host string) bool {
+	switch c.Op {
+	case "H":
+		return host == c.Lit
+	case "h":
+		return globSpec(c.Lit, host)
+	case "G":
+		return globSpec(c.Lit, url)
+	case "P":
+		return strings.HasPrefix(url, c.Lit)
+	case "C":
+		return strings.Contains(url, c.Lit)
+	case "N":
+		return !condSpec(&c.Args[0], url, host)
+	case "A":
+		return condSpec(&c.Args[0], url, host) && condSpec(&c.Args[1], url, host)
+	}
+	return false
+}
+
+// specPacEval reads the generated script top to bottom: URL rules, host table, final return.
+func specPacEval(rc *reqmodel.RouteCfg, url, host string) reqmodel.PacResult {
+	for i := range rc.PacRules {
+		if condSpec(&rc.PacRules[i].Cond, url, host) {
+			return rc.PacRules[i].R
+		}
+	}
+	for _, e := range rc.PacTable {
+		if e.Host == host {
+			return e.R
+		}
+	}
+	return rc.PacDefault
 }
 
 // specRedirect: first matching rule, empty source fields match anything, empty destination fields
@@ -165,15 +308,9 @@ func plainListener(name string) bool {
 	return name == "origin" || name == "proxyA" || name == "redirA" || name == "redirB"
 }
 
-func evaluate(ctx *core.Ctx, h *hops, fc *reqmodel.FullCfg, one oneTarget, t *target, ob *observed) {
-	names := fc.Base.LocalNames
-	kind, scheme := "request", "http"
+func evaluate(ctx *core.Ctx, h *hops, fc *reqmodel.FullCfg, one oneTarget, t *target, ob *observed, ans *reqmodel.SeqAnswer) {
 	mctx := reqmodel.Ctx{ClientIP: "127.0.0.1"}
-	switch t.Kind {
-	case "connect":
-		kind, scheme = "connect", ""
-	case "mitm":
-		scheme = "https"
+	if t.Kind == "mitm" {
 		mctx.Secure = true
 	}
 	hn, hostOK := hostnameOf(t.Authority)
@@ -181,22 +318,63 @@ func evaluate(ctx *core.Ctx, h *hops, fc *reqmodel.FullCfg, one oneTarget, t *ta
 		ctx.Count("out-of-domain")
 		return
 	}
-	rt := reqmodel.AskRoute(ctx.Model, &fc.Route, names, kind, scheme, t.Authority)
+	// the model's decision for this position of the sequence; the pipeline verbs get the configuration as
+	// it answers this request (PAC base = the script's answer for this URL)
+	rt := ans.Route
+	sfc := *fc
+	sfc.Route = ans.Specialise(&fc.Route)
+	if want := specURLs(t)[0]; ans.URL != want {
+		core.Fatalf("model and harness disagree on the URL of %+v: %q vs %q", *t, ans.URL, want)
+	}
 	var out reqmodel.Outcome
 	if t.Kind == "connect" {
-		out = reqmodel.AskFullConnect(ctx.Model, fc, &mctx, &reqmodel.ConnectReq{Authority: t.Authority, Minor: 1,
+		out = reqmodel.AskFullConnect(ctx.Model, &sfc, &mctx, &reqmodel.ConnectReq{Authority: t.Authority, Minor: 1,
 			Fields: []rig.Field{{Name: "Host", Value: t.Authority}, {Name: "Case-Id", Value: t.ID}}})
 	} else {
-		out = reqmodel.AskFullRequest(ctx.Model, fc, &mctx, &reqmodel.Request{Method: "GET", Minor: 1, Absolute: t.Absolute, Scheme: "http", Authority: t.Authority,
-			Path: "/r", Fields: []rig.Field{{Name: "Host", Value: t.Authority}, {Name: "Case-Id", Value: t.ID}}})
+		out = reqmodel.AskFullRequest(ctx.Model, &sfc, &mctx, &reqmodel.Request{Method: "GET", Minor: 1, Absolute: t.Absolute, Scheme: "http", Authority: t.Authority,
+			Path: t.path(), Query: t.Query, Fields: []rig.Field{{Name: "Host", Value: t.Authority}, {Name: "Case-Id", Value: t.ID}}})
 	}
-	sp := specRoute(fc, hn)
+	sp := specRoute(fc, hn, t)
 	ctx.Case(fmt.Sprintf("%+v|%s|%v|%+v", one.Route, one.LocalMode, one.MITM, *t), fc.Route.Base != "none" && fc.Route.Base != "" || one.NGen > 0)
 	ctx.Count("base/" + fc.Route.Base)
 	ctx.Count("kind/" + t.Kind)
 	ctx.Count("local-mode/" + one.LocalMode)
 	ctx.Count("model-route/" + rt.Kind + "/" + rt.Proxy + rt.Err)
 	ctx.Count("spec/" + sp.Kind)
+	if len(fc.Route.PacRules) > 0 {
+		ctx.Count("pac/url-rules")
+		if ans.Pac != nil && fc.Route.Base == "pac" {
+			if hostOnly := specPacEval(&reqmodel.RouteCfg{PacTable: fc.Route.PacTable, PacDefault: fc.Route.PacDefault}, "", hn); hostOnly != specPacEval(&fc.Route, ans.URL, hn) {
+				ctx.Count("pac/url-rule-decides")
+			}
+		}
+	}
+	if len(one.History) > 0 {
+		same, sameOther := false, false
+		for i := range one.History {
+			if p := &one.History[i]; strings.EqualFold(p.Authority, t.Authority) {
+				same = true
+				if p.Kind != t.Kind || p.requestURI() != t.requestURI() {
+					sameOther = true
+				}
+			}
+		}
+		if same {
+			ctx.Count("seq/host-seen-before")
+		}
+		if sameOther {
+			ctx.Count("seq/host-seen-before-with-other-url")
+		}
+	}
+	if ob.Reused {
+		ctx.Count("seq/reused-client-connection/" + t.Kind)
+	}
+	// the hosts-file aliases of loopback addresses
+	for _, a := range hostsAliases.own {
+		if strings.EqualFold(a, hn) && !strings.EqualFold(a, "localhost") {
+			ctx.Count("target/hosts-file-alias/" + one.LocalMode)
+		}
+	}
 	if fc.Route.DirectSet {
 		ctx.Count("direct-domains-set")
 	}
